@@ -93,6 +93,12 @@ def make_geo(spec, kvs):
         return geometry.unit_cube().scale(num(spec['s']))
     if k == 'identity':
         return geometry.identity(kvs)
+    if k == 'bspline':
+        # a B-spline geometry given by its knot vectors and control points (shape N + [d])
+        gkvs = tuple(bspline.KnotVector(unhx(g['kv']), g['p']) for g in spec['kvs'])
+        N = tuple(kv.numdofs for kv in gkvs)
+        coeffs = np.array([num(c) for c in spec['coeffs']], dtype=float).reshape(N + (d,))
+        return bspline.BSplineFunc(gkvs, coeffs)
     raise ValueError('unknown geometry ' + k)
 
 
